@@ -116,7 +116,8 @@ def gen_moves(sim, cfg):
         if b.get("pause") and status in (st.RUNNING, st.RESUMING):
             for s in cfg.pause_spellings:
                 moves.append((["req", s], 1, "pause"))
-        if b.get("resume") and (h["pause_req"] or h["held"]) and status in (st.PAUSING, st.PAUSED):
+        if b.get("resume") and (h["pause_req"] or h["held"] or h.get("pend_pause")) and status in (
+                st.PAUSING, st.PAUSED):
             if not cfg.resume_only_at_rest or status == st.PAUSED:
                 for s in cfg.resume_spellings:
                     moves.append((["req", s], 1, "resume"))
